@@ -206,6 +206,12 @@ func (conR *ConsensusReactor) Receive(chID byte, src *p2p.Peer, msgBytes []byte)
 		case *NewRoundStepMessage:
 			ps.ApplyNewRoundStepMessage(msg)
 		case *CommitStepMessage:
+			// The bit array ends up in PeerState.ProposalBlockParts, which gossipDataRoutine (no recover)
+			// reads with Sub/Not/PickRandom: it must be there and be as large as the header says.
+			if msg.BlockParts == nil || !validBitArray(msg.BlockParts) || msg.BlockParts.Bits != msg.BlockPartsHeader.Total {
+				log.Warnw("Ignoring CommitStepMessage with inconsistent BlockParts", "src", src)
+				return
+			}
 			ps.ApplyCommitStepMessage(msg)
 		case *HasVoteMessage:
 			ps.ApplyHasVoteMessage(msg)
@@ -259,6 +265,11 @@ func (conR *ConsensusReactor) Receive(chID byte, src *p2p.Peer, msgBytes []byte)
 			ps.SetHasProposal(msg.Proposal)
 			conR.conS.peerMsgQueue <- msgInfo{msg, src.Key}
 		case *ProposalPOLMessage:
+			// ends up in PeerState.ProposalPOL, read by gossipVotesRoutine (no recover)
+			if !validBitArray(msg.ProposalPOL) {
+				log.Warnw("Ignoring ProposalPOLMessage with inconsistent ProposalPOL", "src", src)
+				return
+			}
 			ps.ApplyProposalPOLMessage(msg)
 		case *BlockPartMessage:
 			ps.SetHasProposalBlockPart(msg.Height, msg.Round, msg.Part.Index)
@@ -296,6 +307,11 @@ func (conR *ConsensusReactor) Receive(chID byte, src *p2p.Peer, msgBytes []byte)
 		}
 		switch msg := msg.(type) {
 		case *VoteSetBitsMessage:
+			// nil = the peer has no vote for that block: nothing to learn (Update/Or dereference it);
+			// Bits without the matching words made Or allocate Bits/8 bytes (128 GiB for Bits = 1<<40)
+			if msg.Votes == nil || !validBitArray(msg.Votes) {
+				return
+			}
 			cs := conR.conS
 			cs.mtx.Lock()
 			height, votes := cs.Height, cs.Votes
@@ -328,6 +344,12 @@ func (conR *ConsensusReactor) Receive(chID byte, src *p2p.Peer, msgBytes []byte)
 	if err != nil {
 		log.Warn("Error in Receive()", zap.String("error", err.Error()))
 	}
+}
+
+// A bit array decoded from the wire is absent or has exactly the words its size needs
+// (go-wire fills Bits and Elems independently).
+func validBitArray(ba *gcmn.BitArray) bool {
+	return ba == nil || (ba.Bits > 0 && len(ba.Elems) == (ba.Bits+63)/64)
 }
 
 // implements events.Eventable
